@@ -717,7 +717,12 @@ def match_scan(lw, s):
         elseb = iff[3][1]
         assert len(elseb) == 2
         eofif = elseb[0]
-        assert eofif[0] == 'if' and eofif[1] == ('mcall', ('name', 'is'), 'eof', [])
+        assert eofif[0] == 'if'
+        if eofif[1] == ('mcall', ('name', 'is'), 'eof', []):
+            stop_on_fail = False
+        else:
+            assert eofif[1] == ('un', '!', ('mcall', ('name', 'is'), 'good', []))
+            stop_on_fail = True
         tb = eofif[2][1] if eofif[2][0] == 'block' else [eofif[2]]
         assert len(tb) == 1 and tb[0][0] == 'throw' and eofif[3] == ('block', [])
         rules = []
@@ -748,7 +753,7 @@ def match_scan(lw, s):
             if cur[0] == 'block' and len(cur[1]) == 1:
                 cur = cur[1][0]
         assert cur == ('block', [])
-        return {'sig': sig[0], 'rules': rules, 'field': fr[0]}
+        return {'sig': sig[0], 'rules': rules, 'field': fr[0], 'stop_on_fail': stop_on_fail}
     except (AssertionError, IndexError, TypeError, KeyError):
         return None
 
@@ -1146,13 +1151,13 @@ def main():
     co = ['(* GENERATED by translator/blf2coq.py — do not edit *)', 'From VB Require Import IR Sem.',
           'Local Open Scope Z_scope.\nLocal Open Scope string_scope.\n']
     if scan is None:
-        scan = {'sig': 0, 'rules': [], 'field': 0}
+        scan = {'sig': 0, 'rules': [], 'field': 0, 'stop_on_fail': False}
         world.warnings.append('signature scan loop not recognised')
         co.append('Definition scan_recognised : bool := false.')
     else:
         co.append('Definition scan_recognised : bool := true.')
-    co.append('Definition scan_p : scan_params := {| sp_sig := %d; sp_rules := [%s]; sp_field := %d |}.\n' % (
-        scan['sig'], '; '.join('(%d, %d, %s)' % (m, v, zlit(k)) for m, v, k in scan['rules']), scan['field']))
+    co.append('Definition scan_p : scan_params := {| sp_sig := %d; sp_rules := [%s]; sp_field := %d; sp_stop_on_fail := %s |}.\n' % (
+        scan['sig'], '; '.join('(%d, %d, %s)' % (m, v, zlit(k)) for m, v, k in scan['rules']), scan['field'], 'true' if scan['stop_on_fail'] else 'false'))
     ot = world.enums.get('ObjectType')
     otl = sorted(ot.consts.items(), key=lambda kv: kv[1]) if ot else []
     co.append('Definition object_types : list (string * Z) := [\n  %s].\n' % ';\n  '.join('("%s", %d)' % kv for kv in otl))
